@@ -36,6 +36,9 @@ class CoverpointBinArrayModel(CoverpointBinModelBase):
         self.low = low 
         self.high = high 
         self.hit_bin_idx = -1
+        # Index, within the user-declared bin array, of the first bin. Used 
+        # to form bin names that are unique within the array
+        self.name_idx_base = 0
         
     def finalize(self, bin_idx_base:int)->int:
         super().finalize(bin_idx_base)
@@ -50,7 +53,7 @@ class CoverpointBinArrayModel(CoverpointBinModelBase):
         )
     
     def get_bin_name(self, bin_idx):
-        return self.name + "[" + str(self.bin_idx_base+bin_idx) + "]"
+        return self.name + "[" + str(self.name_idx_base+bin_idx) + "]"
             
     def sample(self):
         # Query value from the actual coverpoint or expression
@@ -95,6 +98,7 @@ class CoverpointBinArrayModel(CoverpointBinModelBase):
 
     def clone(self)->'CoverpointBinArrayModel':
         ret = CoverpointBinArrayModel(self.name, self.low, self.high)
+        ret.name_idx_base = self.name_idx_base
         ret.srcinfo_decl = None if self.srcinfo_decl is None else self.srcinfo_decl.clone()
         
         return ret
